@@ -3,6 +3,7 @@ package props
 
 import (
 	"fmt"
+	"mc/explore"
 	"os"
 	"os/exec"
 	"path/filepath"
@@ -41,6 +42,28 @@ func (c *Ctx) IsChild() bool { return c.NShards > 0 }
 
 // Mine says whether work item i belongs to this shard (always true when not sharded).
 func (c *Ctx) Mine(i int) bool { return c.NShards == 0 || i%c.NShards == c.Shard }
+
+// Isolate runs the rest of a check in single-threaded shard processes: in the parent it forks the shards, merges
+// their reports and returns true (the caller returns); in a shard it returns false and every ParallelFor of the
+// check then runs this shard's share of the items sequentially. The code under test is thereby never called from
+// two goroutines of one process (its package-level state, if a change introduces any, is private to a shard and
+// evolves deterministically), which is C20's business and not that of the other properties. Sections that must run
+// once are guarded by Lead().
+func (c *Ctx) Isolate() bool {
+	if c.IsChild() {
+		seqShard, seqShards = c.Shard, c.NShards
+		explore.DefaultShard, explore.DefaultShards = c.Shard, c.NShards
+		c.R.DropMeta = c.Shard != 0
+		return false
+	}
+	c.Fork(Workers())
+	return true
+}
+
+// Lead says whether this process runs the once-only sections (unsharded run, or shard 0).
+func (c *Ctx) Lead() bool { return c.NShards == 0 || c.Shard == 0 }
+
+var seqShard, seqShards int // set by Isolate in a shard: ParallelFor runs sequentially over this shard's items
 
 // Fork re-executes this binary n times as shard processes of the same property and tier (each
 // single-threaded: package-level state of the code under test is then private to a shard) and
@@ -104,6 +127,17 @@ func Workers() int { return runtime.GOMAXPROCS(0) }
 
 // ParallelFor runs fn(worker, i) for i in [0,n) over Workers() goroutines, each with its own Local.
 func ParallelFor(r *report.Report, n int, fn func(l *report.Local, i int)) {
+	if seqShards > 0 {
+		l := r.Local()
+		for i := seqShard; i < n; i += seqShards {
+			fn(l, i)
+			if (i/seqShards)%4096 == 4095 {
+				l.Merge()
+			}
+		}
+		l.Merge()
+		return
+	}
 	var wg sync.WaitGroup
 	var mu sync.Mutex
 	next := 0
